@@ -667,8 +667,31 @@ LEVEL = (
 
 
 def main(tier, seed=0, replay=None, only=None, procs=None):
+    quick = tier == 'quick'
     bounds = {
-        'tolerance': 1e-7,
-        'outside': [],
+        'symbolic': 'interaction coefficients x, y, z (radians), atol of kak_canonicalize_vector in [1e-12, 1e-3], deviations d of near-threshold strengths',
+        'kak_canonicalize_vector_boxes': ('cube [-pi/2,pi/2]^3 (27 sub-boxes) and one coefficient in [-pi,pi] with the other two in [-pi/4,pi/4]' if quick else 'cube [-pi,pi]^3 (125 sub-boxes) and one coefficient in [-2pi,2pi] with the other two in [-pi/4,pi/4]') + '; shift loops unwound by the explorer (depth limit 400 = unwinding assertion)',
+        'direct_kernel_box': [-PI, PI] if quick else [-2 * PI, 2 * PI],
+        'parity_interaction_box': [-PI, PI] if quick else [-2 * PI, 2 * PI],
+        'non_local_part_box': 'allow_partial_czs=True and MS: [-pi/2,pi/2]^3; allow_partial_czs=False and _kak_decomposition_to_operations: canonical region 0<=|z|<=y<=x<=pi/4+atol (documented precondition)',
+        'synthesis_atol': ATOL,
+        'tolerance': {'kak_canonicalize_vector (exact identities)': 1e-7, 'synthesis products (up to global phase)': KTOL, 'why': 'strengths within atol of 0 are dropped and within atol of +-pi/4 rounded to a full CZ: up to 12*atol deviation is built into the routines'},
+        'regimes': 'every strength handed to a synthesis routine: far from {0, +-pi/4} (chain: from every multiple of pi/4 in the box) by >= atol+1e-12, or a + d with |d| <= atol+2e-12 (finite selector); exp(i k d) relaxed to fresh box variables (sound weakening) before the VC',
+        'local_factor_menu': '2 concrete (b0,b1,a0,a1,g) tuples for _kak_decomposition_to_operations (single-qubit synthesis runs on concrete matrices); chain: the local factors produced by kak_canonicalize_vector',
+        'chain': ('[-pi/4,pi/4]^3, at most one strength within atol of a multiple of pi/4' if quick else '[-pi/4,pi/4]^3 all regime combinations; one coefficient in [-pi/2,pi/2] with at most one near strength'),
+        'finite_selectors': 'frame gate of _parity_interaction (3), regimes, local-factor menu, allow_partial_czs',
+        'outside': [
+            'kak_decomposition / kak_vector / _canonicalize_kak_vector (vectorised) / so4_to_magic_su2s / kron_factor_4x4_to_2x2s / bidiagonalize_* / unitary_eig on symbolic matrices / num_cnots_required / extract_right_diag (LAPACK, argsort, boolean masks)',
+            'two_qubit_matrix_to_cz_operations / ..._to_diagonal_and_cz_operations / ..._to_ion_operations end to end (start with kak_decomposition); cleanup_operations / _merge_single_qubit_gates (single_qubit_matrix_to_phased_x_z: np.angle)',
+            'single-qubit synthesis of SYMBOLIC matrices (single_qubit_matrix_to_gates/pauli_rotations/phased_x_z/phxz, PhasedXZGate.from_matrix, axis_angle, deconstruct_single_qubit_matrix_into_angles): inverse trigonometric; executed here only on concrete local factors',
+            'two_qubit_to_sqrt_iswap, two_qubit_to_fsim, cphase_to_fsim (arccos/arcsin of symbolic values), two_qubit_gate_tabulation, two_qubit_to_sycamore',
+            'three_qubit_matrix_to_operations (CS decomposition), quantum_shannon_decomposition, decompose_multi_controlled_x/rotation, two-qubit state preparation, single_to_two_qubit_isometry, Clifford-tableau synthesis',
+            'KakDecomposition._decompose_ (PauliString exponentiation rejects symbolic coefficients)',
+            'atol other than 1e-8 in the synthesis routines; float rounding; complex64',
+        ],
     }
-    return run_check(PID, tier, 'checks.C15', SHIMS, LEVEL, BASE_ASSUMPTIONS, bounds, seed=seed, replay=replay, only=only, procs=procs)
+    return run_check(PID, tier, 'checks.C15', SHIMS, LEVEL, BASE_ASSUMPTIONS + [
+        'near-threshold strengths: exp(i k d), |d| <= atol+2e-12, is replaced by (1+c) + i s with fresh c in [-(k b)^2/2 - 1e-15, 0], s in [-k b - 1e-15, k b + 1e-15] (b = atol+2e-12) before the VC: sound weakening, decided in linear arithmetic',
+        'counterexample CANDIDATES may come from numeric evaluation at points satisfying the path condition (checks/C15.py close_with_candidates); they are replayed on the real code before being reported and never count towards a proof',
+        'emitted operations are mapped to matrices by the documented formulas of oracles/gates_doc.py applied to the gate parameters (C03 ties cirq.unitary to the same formulas)',
+    ], bounds, seed=seed, replay=replay, only=only, procs=procs)
